@@ -522,7 +522,8 @@ def h_raw_df(I, fi):
     P.check("raw.identifiers-verbatim", bool(calls) and all(verbatim(c) for c in calls),
             "every parse of the input file reads the mutation_id and sample_id columns through the converter `str` (raw cell text: no numeric inference, no NA detection), with no option that drops rows or columns", kind="term")
     final = E("parsed", "comma" if one_col else "tab")
-    P.check("raw.result", isinstance(out, E) and _same(out.t, final.t), "the table of the last parse is returned", kind="post")
+    # term level: another expression over the parsed table (a stable sort of its rows, say) may be just as good - a mismatch is undecided, not a violation
+    P.check("raw.result", isinstance(out, E) and _same(out.t, final.t), "the table of the last parse is returned", kind="term")
 
 
 def h_load_pyclone(I, fi):
